@@ -392,6 +392,12 @@ class Endpoint:
     def attach(self, state=ConnectionState.NETWORK_CONN_ESTABLISHED, via=None):
         """Give the connection a fresh socket pair, as client.connect()/_handle_accept do."""
         c = self.conn
+        old = self.reader
+        if old is not None and c._socket_reader is not old and not old._eof and old.exception() is None:
+            # the library closed that transport itself (from another task than the reader): a closed transport ends its
+            # reader's stream, which releases a reader task still blocked in read() on it
+            old.feed_eof()
+            self.loop.run_idle()
         self.reader = asyncio.StreamReader(loop=self.loop)
         self.writer = FakeWriter(lambda b: self.sink(b), self.sent)
         if via == "accept":
